@@ -309,3 +309,134 @@ Proof.
         rewrite (user_clause_val e a c (isclause_user i c Eic) X). specialize (Ex a). cbn in Ex.
         split; [intros [H _]; apply Ex; exact H|intro H; split; [apply Ex; exact H|apply sat_nil]].
 Qed.
+
+(* ---------- sequences of posts ---------- *)
+Lemma run_posts_spec : forall ps (m : memory) s, Inv m s -> Forall post_ok ps ->
+  exists m' s' sts, run_posts m s ps = Some (m', s', sts) /\ Inv m' s' /\
+    List.length sts = List.length ps /\
+    (forall e a, extends e a -> sat e (clauses s') -> sat e (clauses s) /\ accepted_hold a ps sts) /\
+    (forall a aux, accepted_hold a ps sts -> sat (canon m a aux) (clauses s) ->
+                   exists aux', sat (canon m' a aux') (clauses s')).
+Proof.
+  induction ps as [|p r IH]; intros m s I Ok.
+  - exists m, s, []. cbn [run_posts]. split; [reflexivity|]. split; [exact I|]. split; [reflexivity|]. split.
+    + intros e a _ HS. split; [exact HS|exact Logic.I].
+    + intros a aux _ HS. exists aux. exact HS.
+  - inversion Ok as [|? ? Okp Okr]; subst.
+    destruct (run_post_spec m s p I Okp) as (m1 & s1 & st & E1 & I1 & _ & (new & Cl) & _ & Ref & Acc).
+    destruct (IH m1 s1 I1 Okr) as (m2 & s2 & sts & E2 & I2 & Len & Snd & Cmp).
+    exists m2, s2, (st :: sts). cbn [run_posts]. rewrite E1, E2.
+    split; [reflexivity|]. split; [exact I2|]. split; [cbn; lia|]. split.
+    + intros e a X HS. destruct (Snd e a X HS) as [HS1 Hr]. split.
+      * rewrite Cl in HS1. apply sat_app in HS1. tauto.
+      * cbn [accepted_hold]. destruct st; [|exact Hr]. split; [|exact Hr].
+        destruct (Acc eq_refl) as [A _]. exact (A e a X HS1).
+    + intros a aux Hh HS. cbn [accepted_hold] in Hh. destruct st.
+      * destruct Hh as [Hp Hr]. destruct (Acc eq_refl) as [_ B].
+        destruct (B a aux Hp HS) as [aux1 [_ HS1]]. exact (Cmp a aux1 Hr HS1).
+      * destruct (Ref eq_refl) as [Em Es]. subst m1 s1. exact (Cmp a aux Hh HS).
+Qed.
+
+Lemma inv_empty (m : memory) : mem_wf m -> Inv m empty_mgr.
+Proof. intro W. split; [exact W|apply cod_inv_empty|intros c x []]. Qed.
+
+(* (vi) every sequence of posts, every well-formed initial store (whatever was encoded earlier):
+   the model never gets stuck, and a user assignment extends to a model of the generated CNF
+   exactly when it satisfies every accepted constraint *)
+Theorem post_exact : forall (m0 : memory) ps, mem_wf m0 -> Forall post_ok ps ->
+  exists m s sts, run_posts m0 empty_mgr ps = Some (m, s, sts) /\
+    List.length sts = List.length ps /\
+    forall a, ext a (clauses s) <-> accepted_hold a ps sts.
+Proof.
+  intros m0 ps W Ok.
+  destruct (run_posts_spec ps m0 empty_mgr (inv_empty m0 W) Ok) as (m & s & sts & E & _ & Len & Snd & Cmp).
+  exists m, s, sts. split; [exact E|]. split; [exact Len|]. intro a. split.
+  - intros [e [X HS]]. exact (proj2 (Snd e a X HS)).
+  - intro Hh. destruct (Cmp a (fun _ => false) Hh (sat_nil _)) as [aux' HS].
+    exists (canon m a aux'). split; [apply canon_extends|exact HS].
+Qed.
+
+(* a refused post leaves the store and the manager exactly as they were *)
+Theorem refused_unchanged : forall (m : memory) s p m' s',
+  run_post m s p = Some (m', s', Refused) -> m' = m /\ s' = s.
+Proof.
+  intros m s p m' s'. destruct p as [v|c|l x|l|k l|i d]; cbn [run_post]; try discriminate.
+  - destruct (k <? 3)%Z; [intros H; injection H as H1 H2; subst; split; reflexivity|].
+    destruct (heule _ _ _ _) as [[cs a]|]; discriminate.
+  - unfold pseudobool. destruct (isclause i); try discriminate.
+    destruct (is_ge (iop i)); [|intros H; injection H as H1 H2; subst; split; reflexivity].
+    destruct (getrobdd d i m) as [[root m1]|]; [|discriminate].
+    destruct (codify _ _ _ _); discriminate.
+Qed.
+
+(* what is refused: a chain width below 3, or an inequality that is not a clause and whose
+   operator is not >= (after Ineq's normalisation: > or =) *)
+Theorem refused_only : forall (m : memory) s p m' s',
+  run_post m s p = Some (m', s', Refused) ->
+  (exists k l, p = PAmoH k l /\ (k < 3)%Z) \/
+  (exists i d, p = PIneq i d /\ isclause i = NotClause /\ is_ge (iop i) = false).
+Proof.
+  intros m s p m' s'. destruct p as [v|c|l x|l|k l|i d]; cbn [run_post]; try discriminate.
+  - destruct (Z.ltb_spec k 3); [intros _; left; exists k, l; split; [reflexivity|assumption]|].
+    destruct (heule _ _ _ _) as [[cs a]|]; discriminate.
+  - unfold pseudobool. destruct (isclause i) eqn:Ei; try discriminate.
+    destruct (is_ge (iop i)) eqn:Eg; [|intros _; right; exists i, d; repeat split; assumption].
+    destruct (getrobdd d i m) as [[root m1]|]; [|discriminate].
+    destruct (codify _ _ _ _); discriminate.
+Qed.
+
+(* ---------- solve / value / evalexpr ---------- *)
+Lemma value_lit e v b : value e (User v, b) = lit (user_part e) v b.
+Proof. unfold value, lit, user_part. cbn. destruct (e (User v)), b; reflexivity. Qed.
+Lemma evalterms_sum e l : forall s0, evalterms e l s0 = (s0 + tsum (user_part e) l)%Z.
+Proof.
+  induction l as [|t r IH]; intro s0; cbn [evalterms tsum]; [lia|].
+  rewrite IH. unfold tlit. rewrite value_lit.
+  destruct (lit_01 (user_part e) (tv t) (ts t)) as [E|E]; rewrite E; cbn; lia.
+Qed.
+Lemma evalexpr_eval e x : evalexpr e x = eval (user_part e) x.
+Proof. unfold evalexpr, eval. apply evalterms_sum. Qed.
+
+Section Solver.
+  (* the SAT solver (PySAT) is not modelled: any function with this contract *)
+  Variable sat_o : cnf -> option valuation.
+  Hypothesis sat_o_sound : forall f e, sat_o f = Some e -> sat e f.
+  Hypothesis sat_o_complete : forall f, sat_o f = None -> forall e, ~ sat e f.
+  Definition solve (s : mgr) : option valuation := sat_o (clauses s).
+
+  Theorem solve_exact : forall (m0 : memory) ps, mem_wf m0 -> Forall post_ok ps ->
+    exists m s sts, run_posts m0 empty_mgr ps = Some (m, s, sts) /\
+      ((exists e, solve s = Some e) <-> (exists a, accepted_hold a ps sts)) /\
+      (forall e, solve s = Some e ->
+         accepted_hold (user_part e) ps sts /\
+         (forall x, evalexpr e x = eval (user_part e) x) /\
+         (forall v b, value e (User v, b) = lit (user_part e) v b)).
+  Proof.
+    intros m0 ps W Ok. destruct (post_exact m0 ps W Ok) as (m & s & sts & E & _ & Hx).
+    exists m, s, sts. split; [exact E|].
+    assert (M : forall e, solve s = Some e -> accepted_hold (user_part e) ps sts).
+    { intros e He. apply Hx. exists e. split; [intro v; reflexivity|apply sat_o_sound; exact He]. }
+    split; [split|].
+    - intros [e He]. exists (user_part e). exact (M e He).
+    - intros [a Ha]. apply Hx in Ha. destruct Ha as [e [_ HS]]. unfold solve.
+      destruct (sat_o (clauses s)) as [e'|] eqn:Es; [exists e'; reflexivity|].
+      exfalso. exact (sat_o_complete _ Es e HS).
+    - intros e He. split; [exact (M e He)|]. split; [intro x; apply evalexpr_eval|intros v b; apply value_lit].
+  Qed.
+End Solver.
+
+Example post_exact_ex :
+  let ge2 := mkI [mkT "x" true 1; mkT "y" true 1; mkT "z" true 1] 2 GE in
+  let ps := [PNewVar "x"; PIneq ge2 false; PAmoH 3 [("x", true); ("y", true); ("z", true); ("w", true)]%string;
+             PIneq (mkI [mkT "x" true 1; mkT "y" true 1] 1 EQ) false; PIneq ge2 true] in
+  Forall post_ok ps /\
+  match run_posts [] empty_mgr ps with
+  | Some (m, s, sts) => sts = [Accepted; Accepted; Accepted; Refused; Accepted] /\ List.length (clauses s) = 18 /\
+                        List.length m = 4 /\ auxcount s = 1
+  | None => False
+  end.
+Proof.
+  cbn zeta. split.
+  - repeat constructor.
+  - vm_compute. repeat split.
+Qed.
